@@ -28,10 +28,11 @@ AT = re.compile(r'^"AT\|(\d+)\|(\d+)\|([^|"]*)\|([^|"]*)"$')
 # (op regex, clause regex) -> properties
 GRAPH_ATTR = [
     (r".*", r"^(check-cycles|check-cycles-raises|topological-order|topological-order-no-raise|len)$", ["C15"]),
-    (r".*", r"^(entry-jobs|exit-jobs|exit-jobs-forever|predecessors|successors|upstream|downstream|iterate-jobs|iterate-jobs-schedulers)$", ["C17"]),
+    (r".*", r"^(entry-jobs|exit-jobs|exit-jobs-forever|predecessors|successors|upstream|downstream|iterate-jobs|iterate-jobs-schedulers|iterate-jobs-interleaved)$", ["C17"]),
     (r"^sanitize$", r".*", ["C16"]),
     (r"^(bypass|keep_only|keep_between)$", r".*", ["C18"]),
     (r"^(requires|add|update|remove)$", r".*", ["C19"]),
+    (r"^list$", r"^list-", ["C15", "C20"]),
 ]
 
 
@@ -242,7 +243,17 @@ def graph(prop, tier, seed, workdir):
     samples = [{"U": r["U"], "init": r["init"],
                 "steps": [{k: v for k, v in s.items() if k != "post"} for s in r["steps"][:3]]}
                for r in (recs[:1] + recs[-1:])]
-    cov = {"states": states + dist, "transitions": trans + gen,
+    listing = None
+    if prop == "C15":
+        # "list() numbers jobs accordingly": the listing of rendered trees (Dot.tla), including
+        # trees listed once, edited, and listed again
+        import dotcheck
+        lrecs, lrej = dotcheck.list_rejections(tier, seed, workdir, 400 if tier == "quick" else 6000)
+        for r in lrej:
+            r["recorded"] = {"U": None, "init": None, "steps": [], "tree": r["recorded"]["tree"]}
+        rejected = rejected + lrej
+        listing = {"trees_listed": len(lrecs), "rejected": len(lrej)}
+    cov = {"states": states + dist, "transitions": trans + gen, "listing": listing,
            "rule": "histories of graph API calls (%s) executed on the real classes, every step and query "
                    "validated by TLC against Graph.tla; distinct = distinct (universe, initial graph, call "
                    "sequence); non-trivial = contains a call / query this property is about" % desc,
